@@ -62,9 +62,6 @@ Fixpoint split_by {X} (sizes : list nat) (l : list X) : list (list X) :=
   | [] => []
   | m :: s' => firstn m l :: split_by s' (skipn m l)
   end.
-Fixpoint offsets_from (s : nat) (sizes : list nat) : list nat :=
-  match sizes with [] => [] | m :: s' => s :: offsets_from (s + m) s' end.
-
 (* a global row: (global index, (aggregate id or None, candidate value)) *)
 Definition grow := (nat * (option nat * F))%type.
 Definition g_idx (e : grow) : nat := fst e.
@@ -89,9 +86,14 @@ Definition off_ids (N f m : nat) (slice : list grow) : list nat :=
   filter (fun c => negb (in_range f m c) && existsb (has_agg c) slice) (seq 0 N).
 
 Record rank_in := mkRankIn { ri_first : nat; ri_size : nat; ri_rows : list grow }.
+(* rank r owns the contiguous block of sizes[r] rows starting at sizes[0]+...+sizes[r-1] *)
+Fixpoint rank_inputs_from (s : nat) (sizes : list nat) (l : list grow) : list rank_in :=
+  match sizes with
+  | [] => []
+  | m :: s' => mkRankIn s m (firstn m l) :: rank_inputs_from (s + m) s' (skipn m l)
+  end.
 Definition rank_inputs (sizes : list nat) (aggs : list (option nat)) (B : list F) : list rank_in :=
-  map (fun t => mkRankIn (fst (fst t)) (snd (fst t)) (snd t))
-      (combine (combine (offsets_from 0 sizes) sizes) (split_by sizes (grows aggs B))).
+  rank_inputs_from 0 sizes (grows aggs B).
 
 (* what the owner holds after communicate_T(off_proc_norms, R, sum): its own partial sum plus the partial
    sums of every other rank that lists c among its off-process columns *)
